@@ -12,7 +12,10 @@ filter="${1:-.}"
 (cd "$here/gocv" && go build -o "$here/bin/gocv" .) || exit 2
 work="$(mktemp -d)"; trap 'rm -rf "$work"' EXIT
 list="$work/cases.txt"; : > "$list"
-grep -v '^#' "$here/selftest/reverts.txt" | while read -r c p sub; do [ -n "$c" ] && echo "revert-$c|fail|$p|$sub|revert:$c" >> "$list"; done
+grep -v '^#' "$here/selftest/reverts.txt" | while read -r c p sub alt; do
+  [ -n "$c" ] || continue
+  if [ -n "${alt:-}" ]; then echo "revert-$c|fail|$p|$sub|$here/$alt" >> "$list"; else echo "revert-$c|fail|$p|$sub|revert:$c" >> "$list"; fi
+done
 for d in "$here"/seeded/*/; do
   n=$(basename "$d"); p=$(python3 -c "import json,sys;print(json.load(open(sys.argv[1]))['breaks_property'])" "$d/meta.json")
   echo "seed-$n|fail|$p||$d/patch.diff" >> "$list"
